@@ -202,16 +202,19 @@ int __wrap_pthread_cond_broadcast(pthread_cond_t *c) {
 int __wrap_pthread_cond_signal(pthread_cond_t *c) {
   if (me && (c == cond_w || c == cond_q)) {
     if (ctl_active) {
-      cth *w[MAXW];
+      cth *w[MAXW + MAXC];
       int n = 0;
       for (int i = 0; i < nworkers; ++i) {
         if (workers[i]->status == ST_WAIT && workers[i]->wc == c && !workers[i]->signalled) w[n++] = workers[i];
+      }
+      for (int i = 0; i < nclients; ++i) {
+        if (clients[i]->status == ST_WAIT && clients[i]->wc == c && !clients[i]->signalled) w[n++] = clients[i];
       }
       if (!n) ev("signal:-");
       else {
         cth *t = w[cur_sel % n];
         t->signalled = 1;
-        ev("signal:%d", t->idx);
+        ev("signal:%s%d", t->kind == K_CLIENT ? "c" : "", t->idx);
       }
       return 0;
     } else if (free_trace) {
@@ -574,7 +577,7 @@ int main(int argc, char **argv) {
       teardown();
       do_selfsd(n, w);
     } else if (!exec_kind) {
-      if (!strcmp(w[0], "call") || !strcmp(w[0], "step") || !strcmp(w[0], "spur") || !strcmp(w[0], "pick") || !strcmp(w[0], "finish") || !strcmp(w[0], "settle")) printf("no-executor\n");
+      if (!strcmp(w[0], "call") || !strcmp(w[0], "step") || !strcmp(w[0], "spur") || !strcmp(w[0], "pick") || !strcmp(w[0], "finish") || !strcmp(w[0], "settle") || !strcmp(w[0], "quiesce")) printf("no-executor\n");
       else printf("bad-op\n");
     } else if (!strcmp(w[0], "call") && n == 4) {
       int i = atoi(w[1]);
@@ -612,6 +615,13 @@ int main(int argc, char **argv) {
     } else if (!strcmp(w[0], "finish") && n == 1) {
       do_finish();
       flush_line("finish: ");
+    } else if (!strcmp(w[0], "quiesce") && n == 1) {
+      cth *en[MAXW + MAXC];
+      for (int fuel = 0; fuel < 200000; ++fuel) {
+        if (!list_enabled(en)) break;
+        step_thread(en[0], 0);
+      }
+      flush_line("quiesce: ");
     } else if (!strcmp(w[0], "settle") && n == 1) {
       do_settle();
       flush_line("settle: ");
